@@ -9,6 +9,7 @@ package dnssec
 import (
 	"fmt"
 	"math/rand"
+	"os"
 	"strings"
 	"testing"
 
@@ -242,6 +243,9 @@ func TestVerifC02Nsec(t *testing.T) {
 
 	// ---- NSEC verifiers
 	vC02Witnesses(tr, g)
+	if os.Getenv("VERIF_TIER") == "thorough" {
+		vC02Exhaustive(tr, g)
+	}
 	for c := 0; c < n; c++ {
 		g.newPool(r.Intn(3) == 0)
 		var apex vC02Name
@@ -262,6 +266,17 @@ type vC02FixedProbe struct {
 	q     vC02Name
 	qtype uint16
 }
+
+// controls for the exhaustive (thorough) sweep: which chain records to hand over, and whether a
+// case without an unlisted failure is written to the trace (all are judged by the Go oracle)
+var (
+	vC02Subset    []int
+	vC02SubsetSet bool
+	vC02Quiet     bool
+	vC02KindTag   string
+	vC02Swept     int
+	vC02SweptFail int
+)
 
 func vC02N(labels ...string) vC02Name {
 	var n vC02Name
@@ -329,6 +344,13 @@ func vC02NsecCase(tr *vC02Trace, g *vC02Gen, z *vC02Zone, fixed []vC02FixedProbe
 	if fixed != nil {
 		kind = "witness"
 		recs = append([]vC02Rec(nil), chain...)
+		if vC02SubsetSet {
+			kind = vC02KindTag
+			recs = nil
+			for _, i := range vC02Subset {
+				recs = append(recs, chain[i])
+			}
+		}
 	}
 	// pollution
 	var child *vC02Zone
@@ -462,11 +484,12 @@ func vC02NsecCase(tr *vC02Trace, g *vC02Gen, z *vC02Zone, fixed []vC02FixedProbe
 	exactJudged, aggrJudged := judge(keptRecs, false), judge(aggrRecs, true)
 
 	// truth in the world made of z and (when its records are mixed in) the child zone
-	truth := func(q vC02Name) (*vC02Zone, bool) {
+	truth := func(q vC02Name, qtype uint16) (*vC02Zone, bool) {
 		if !vC02Sub(q, z.apex) {
 			return nil, false
 		}
-		if child != nil && vC02Sub(q, child.apex) {
+		// DS at the cut is the parent's data; everything else at or below the cut is the child's
+		if child != nil && (vC02StrictSub(q, child.apex) || (vC02Sub(q, child.apex) && qtype != dns.TypeDS)) {
 			hasChild := false
 			for _, rc := range recs {
 				if rc.note == "child" {
@@ -568,7 +591,7 @@ func vC02NsecCase(tr *vC02Trace, g *vC02Gen, z *vC02Zone, fixed []vC02FixedProbe
 		}
 
 		// ---- ground truth, verdict by verdict
-		if tz, ok := truth(p.eff); ok {
+		if tz, ok := truth(p.eff, p.qtype); ok {
 			how := z.existsHow(p.eff)
 			ndTrue := z.nodataTrue(p.eff, p.qtype)
 			p.note = fmt.Sprintf("[truth: exists=%q nodata=%v]", how, ndTrue)
@@ -639,6 +662,13 @@ func vC02NsecCase(tr *vC02Trace, g *vC02Gen, z *vC02Zone, fixed []vC02FixedProbe
 		rdesc = append(rdesc, strings.TrimSpace(fmt.Sprintf("%d: %s NSEC %s %s class=%d %s", i, vC02Pres(rc.owner), vC02Pres(rc.next), vC02CoqTypes(rc.types), rc.class, rc.note)))
 	}
 	emit := func(ps []*vC02Probe, fkey, fail string) {
+		vC02Swept += len(ps)
+		if fail != "" && fkey == "" {
+			vC02SweptFail++
+		}
+		if vC02Quiet && (fail == "" || fkey != "") {
+			return
+		}
 		var pc, pd []string
 		denial, refusal := false, false
 		for _, p := range ps {
@@ -692,4 +722,106 @@ func vC02NsecCase(tr *vC02Trace, g *vC02Gen, z *vC02Zone, fixed []vC02FixedProbe
 	if len(group) > 0 {
 		emit(group, "", "")
 	}
+}
+
+// vC02Exhaustive: every zone over the label alphabet {a, b, *} below the apex "e."
+//   (A) owners of depth <= 2, at most 4 of them;  (B) owners of depth <= 3, at most 2 of them;
+// each with every choice of at most one special owner (delegation without DS, delegation with DS,
+// DNAME — never at a wildcard); every non-empty subset of the genuine chain; every question name
+// of the same universe (plus the apex) for types A and DS.  Every verdict is judged by the Go
+// oracle; one case in vC02SweepStride (and every failing one) also goes through the Coq model.
+const vC02SweepStride = 389
+
+func vC02Exhaustive(tr *vC02Trace, g *vC02Gen) {
+	apex := vC02N("e")
+	labels := []string{"a", "b", "*"}
+	universe := func(depth int) []vC02Name {
+		var out []vC02Name
+		var rec func(prefix vC02Name, d int)
+		rec = func(prefix vC02Name, d int) {
+			if d == 0 {
+				return
+			}
+			for _, l := range labels {
+				n := vC02Child([]byte(l), prefix)
+				out = append(out, n)
+				rec(n, d-1)
+			}
+		}
+		rec(apex, depth)
+		return out
+	}
+	apexT := []uint16{2, 6, 46, 47, 48}
+	plain := []uint16{1, 46, 47}
+	specials := [][]uint16{{2, 46, 47}, {2, 43, 46, 47}, {39, 46, 47}}
+	counter := 0
+	sweep := func(names []vC02Name, maxOwners int, tag string) {
+		questions := append([]vC02Name{apex}, names...)
+		var probes []vC02FixedProbe
+		for _, q := range questions {
+			probes = append(probes, vC02FixedProbe{q, 1}, vC02FixedProbe{q, 43})
+		}
+		var choose func(start int, picked []int)
+		choose = func(start int, picked []int) {
+			if len(picked) > 0 {
+				// type variants: all plain, or exactly one special (non-wildcard) owner
+				for sp := -1; sp < len(picked); sp++ {
+					for _, st := range specials {
+						if sp == -1 && &st[0] != &specials[0][0] {
+							continue
+						}
+						if sp >= 0 && string(names[picked[sp]][0]) == "*" {
+							continue
+						}
+						nodes := []vC02Node{{apex, apexT}}
+						for i, pi := range picked {
+							ts := plain
+							if i == sp {
+								ts = st
+							}
+							nodes = append(nodes, vC02Node{names[pi], ts})
+						}
+						z := vC02MkZone(apex, nodes...)
+						// nothing owned below a cut
+						wf := true
+						for _, a := range z.nodes {
+							for _, b := range z.nodes {
+								if vC02CutTypes(a.types) && vC02StrictSub(b.name, a.name) {
+									wf = false
+								}
+							}
+						}
+						if !wf {
+							continue
+						}
+						nrec := len(z.nodes)
+						for mask := 1; mask < 1<<nrec; mask++ {
+							vC02Subset = vC02Subset[:0]
+							for i := 0; i < nrec; i++ {
+								if mask&(1<<i) != 0 {
+									vC02Subset = append(vC02Subset, i)
+								}
+							}
+							counter++
+							vC02SubsetSet, vC02KindTag = true, tag
+							vC02Quiet = counter%vC02SweepStride != 0
+							vC02NsecCase(tr, g, z, probes)
+						}
+					}
+				}
+			}
+			if len(picked) == maxOwners {
+				return
+			}
+			for i := start; i < len(names); i++ {
+				choose(i+1, append(picked, i))
+			}
+		}
+		choose(0, nil)
+	}
+	sweep(universe(2), 4, "exhaustive-d2")
+	sweep(universe(3), 2, "exhaustive-d3")
+	vC02SubsetSet, vC02Quiet = false, false
+	tr.emit(map[string]any{"k": "exhaustive-summary", "go_fail": "", "nontrivial": false,
+		"desc": fmt.Sprintf("exhaustive sweep: %d record sets, %d verdict groups judged by the Go oracle, %d unlisted failures", counter, vC02Swept, vC02SweptFail)})
 }
